@@ -174,6 +174,15 @@ func (s State) files() []srcFile {
 	// far: sees leaf's objects only through mid (does not import leaf): when leaf changes without changing its
 	// export data, far's inputs change ONLY through mid's fact file (the vetx chain)
 	fs = append(fs, srcFile{Rel: "far/far.go", Content: "package far\n\nimport \"" + modPath + "/mid\"\n\nfunc Use() {\n\tprintln(mid.Make().Old())\n\tif mid.Wrap() == nil {\n\t\tprintln(\"nil\")\n\t}\n\tmid.Calc(3)\n}\n"})
+	// deeper chains: deep3 -> hop1 -> mid -> leaf and deep4 -> hop2 -> hop1 -> mid -> leaf, each importing ONLY the next
+	// package (the value of type leaf.T travels along as a package-level variable with inferred type). A
+	// comment-only edit in leaf leaves the compiled form of leaf, mid, hop1, hop2 unchanged, so deep3/deep4 learn
+	// about it only if the CONTENT of the direct dependency's fact file is keyed (a key built from the
+	// dependency's package hash sees leaf's build ID only one level down)
+	fs = append(fs, srcFile{Rel: "hop1/hop1.go", Content: "package hop1\n\nimport \"" + modPath + "/mid\"\n\nvar V = mid.Make()\n"})
+	fs = append(fs, srcFile{Rel: "hop2/hop2.go", Content: "package hop2\n\nimport \"" + modPath + "/hop1\"\n\nvar V = hop1.V\n"})
+	fs = append(fs, srcFile{Rel: "deep3/deep3.go", Content: "package deep3\n\nimport \"" + modPath + "/hop1\"\n\nfunc Use() {\n\tprintln(hop1.V.Old())\n}\n"})
+	fs = append(fs, srcFile{Rel: "deep4/deep4.go", Content: "package deep4\n\nimport \"" + modPath + "/hop2\"\n\nfunc Use() {\n\tprintln(hop2.V.Old())\n}\n"})
 	// rng: compiles only with language version >= go1.22
 	fs = append(fs, srcFile{Rel: "rng/rng.go", Content: "package rng\n\nimport \"" + modPath + "/leaf\"\n\nfunc Count() int {\n\tn := leaf.Legacy()\n\tfor i := range 3 {\n\t\tn += i\n\t}\n\treturn n\n}\n"})
 	fs = append(fs, srcFile{Rel: "go.mod", Content: "module " + modPath + "\n\ngo " + s.GoDirective + "\n"})
@@ -451,7 +460,7 @@ func dimsOf(hdir string, s State, pkg string) map[string]string {
 func observeKeys(hdir string, s State, stderr string) []KeyObs {
 	hs := parseHashes(stderr)
 	var out []KeyObs
-	for _, pkg := range []string{"leaf", "mid", "target", "rng", "far"} {
+	for _, pkg := range []string{"leaf", "mid", "target", "rng", "far", "hop1", "hop2", "deep3", "deep4"} {
 		path := modPath + "/" + pkg
 		ab, pb := hs["staticcheck "+path], hs["package "+path]
 		if len(ab) != 1 || len(pb) != 1 {
@@ -601,6 +610,7 @@ func flippers(thorough bool) []flipper {
 		{"GOOS", nil, func(s *State) { s.GOOS = "windows" }},
 		{"Files:target", nil, func(s *State) { s.TargetVariant = 1 }},
 		{"DepFacts:deprecated-comment-only", nil, func(s *State) { s.LeafDeprecated = false }},
+		{"DepFacts:deprecated-comment-only:reverse", func(s *State) { s.LeafDeprecated = false }, func(s *State) { s.LeafDeprecated = true }},
 		{"DepFacts:purity", nil, func(s *State) { s.LeafPure = false }},
 		{"DepFacts:typed-nil", nil, func(s *State) { s.LeafTypedNil = false }},
 		{"Files:mid", nil, func(s *State) { s.MidExtra = 1 }},
